@@ -25,12 +25,14 @@ Record bfixes := mkBF {
                             the definition's FILE (ignoreDefineLoc was compared without the file name) *)
   bf_doc_end : bool;     (* C05-doc-end: definition / references / highlight / rename answer a cursor at the very end
                             of the document (offset = len(contents)) as hover does; before: `offset >= len` gave up *)
-  bf_for_order : bool    (* C05-for-step-order: cgForNumStat analyses init, limit, step (source order); before: init,
+  bf_for_order : bool;   (* C05-for-step-order: cgForNumStat analyses init, limit, step (source order); before: init,
                             STEP, limit - a function scope of the step was stored before those of the limit (class B5) *)
+  bf_multi_local : bool  (* C07-multi-local-order: cgLocalVarDeclStat analyses ALL initialisers, then adds the names;
+                            before: name i was added right after initialiser i (class B3 / multi_local_order) *)
 }.
-Definition no_fixes : bfixes := mkBF false false false.
-Definition all_fixes : bfixes := mkBF true true true.
-Definition deployed : bfixes := mkBF true true true.
+Definition no_fixes : bfixes := mkBF false false false false.
+Definition all_fixes : bfixes := mkBF true true true true.
+Definition deployed : bfixes := mkBF true true true true.
 
 (* ------------------------------------------------------------------ Location predicates (lexer/common.go) *)
 Definition loc_eqb (a b : loc) : bool :=                      (* CompareTwoLoc *)
@@ -230,10 +232,12 @@ Definition assign_name (flv slv : Z) (n : list N) (l : loc) (eo : option exp) (s
 
 Definition apply_all {A} (fs : list (A -> A)) (a : A) : A := fold_left (fun x f => f x) fs a.
 
-(* cgLocalVarDeclStat: expression i is visited, then name i is added; an expression beyond the names is visited
-   once and ends the loop; names beyond the expressions get no value (or the trailing call) *)
-Fixpoint local_loop (vis : list (exp * (tstate -> tstate))) (ns : list (list N * loc)) (lastcall : refexp)
+(* cgLocalVarDeclStat BEFORE fixes/C07-multi-local-order.diff (kept for the `_fx` variants): expression i is visited,
+   then name i is added; an expression beyond the names is visited once and ends the loop; names beyond the
+   expressions get no value (or the trailing call) *)
+Fixpoint local_loop_old (vis : list (exp * (tstate -> tstate))) (ns : list (list N * loc)) (lastcall : refexp)
          (st : tstate) : tstate :=
+
   match vis with
   | [] =>
     fold_left (fun s nl => add_var (mkV (fst nl) (snd nl) lastcall
@@ -244,9 +248,44 @@ Fixpoint local_loop (vis : list (exp * (tstate -> tstate))) (ns : list (list N *
     | [] => st1
     | (n, nl) :: ns' =>
       let st2 := add_var (mkV n nl (ref_of_exp e) (refer_empty n e)) st1 in
-      local_loop vis' ns' (match e with ECall _ _ _ _ => ref_of_exp e | _ => RNone end) st2
+      local_loop_old vis' ns' (match e with ECall _ _ _ _ => ref_of_exp e | _ => RNone end) st2
     end
   end.
+
+(* cgLocalVarDeclStat now: ALL the expressions are visited first (as Lua evaluates them: none sees a name of the
+   statement; one expression beyond the names is still visited, it ends the first loop), then name i is added with
+   expression i as its ReferExp; names beyond the expressions get no value (or the trailing call) *)
+Fixpoint local_adds (es : list exp) (ns : list (list N * loc)) (lastcall : refexp) (st : tstate) : tstate :=
+  match es with
+  | [] =>
+    fold_left (fun s nl => add_var (mkV (fst nl) (snd nl) lastcall
+                                        (match lastcall with RNone => true | _ => false end)) s) ns st
+  | e :: es' =>
+    match ns with
+    | [] => st
+    | (n, nl) :: ns' =>
+      local_adds es' ns' (match e with ECall _ _ _ _ => ref_of_exp e | _ => RNone end)
+                 (add_var (mkV n nl (ref_of_exp e) (refer_empty n e)) st)
+    end
+  end.
+
+(* the entries local_adds adds, in the order they are added (local_adds = fold of add_var over them:
+   Proofs/TraverseBindDefs.v local_adds_fold) *)
+Fixpoint local_vars (es : list exp) (nls : list (list N * loc)) (lastcall : refexp) {struct es} : list ventry :=
+  match es with
+  | [] => map (fun nl => mkV (fst nl) (snd nl) lastcall (match lastcall with RNone => true | _ => false end)) nls
+  | e :: es' =>
+    match nls with
+    | [] => []
+    | (n, nl) :: nls' =>
+      mkV n nl (ref_of_exp e) (refer_empty n e)
+          :: local_vars es' nls' (match e with ECall _ _ _ _ => ref_of_exp e | _ => RNone end)
+    end
+  end.
+
+Definition local_loop (vis : list (exp * (tstate -> tstate))) (ns : list (list N * loc)) (lastcall : refexp)
+           (st : tstate) : tstate :=
+  local_adds (map fst vis) ns lastcall (apply_all (map snd (firstn (S (length ns)) vis)) st).
 
 (* cgAssignStat: per target, its expression (if any) is visited first, then the target is handled; surplus
    expressions are visited at the end *)
@@ -377,7 +416,7 @@ with tr_stat_fx (flv slv : Z) (s : stat) (st : tstate) {struct s} : tstate :=
                                end) vars)
                 (map (fun e => (e, tr_exp_fx flv e)) es) st
   | SLocal ns ls _ es _ =>
-    local_loop (map (fun e => (e, tr_exp_fx flv e)) es) (combine ns ls) RNone st
+    (if bf_multi_local fx then local_loop else local_loop_old) (map (fun e => (e, tr_exp_fx flv e)) es) (combine ns ls) RNone st
   | SLocalFunc n nl f _ => tr_exp_fx flv f (add_var (mkV n nl (ref_of_exp f) false) st)
   end
 with tr_block_fx (flv slv : Z) (b : block) (st : tstate) {struct b} : tstate :=
